@@ -465,7 +465,7 @@ class HeapVerifier(vcmod.FunctionVerifier):
                     continue
                 for n, formula in self.invb.conjuncts(f.heap, only):
                     obs[n].vcs.append(PathVC(list(f.pc), formula, f.trace, 'inv',
-                                             note='on %s exit' % ('normal' if f.status == 'ret' else f.exc)))
+                                             note='on %s exit' % ('normal' if f.status == 'ret' else f.exc), state=f))
             self.obligations.extend(obs.values())
         if getattr(c, 'pure', False):
             ob = Obligation(fid + '#frame', 'the heap is not modified')
@@ -480,5 +480,125 @@ class HeapVerifier(vcmod.FunctionVerifier):
                     continue
                 for n, formula in self.invb.same(pre.heap, f.heap, []):
                     ob.vcs.append(PathVC(list(f.pc), formula, f.trace, 'same',
-                                         note='%s differs after %s' % (n, f.exc)))
+                                         note='%s differs after %s' % (n, f.exc), state=f))
             self.obligations.append(ob)
+
+
+# ---------------------------------------------------------------------------------------------
+# G rendering: finite-scope, quantifier-free copy of a VC -> definitive `sat` with an explicit heap
+# ---------------------------------------------------------------------------------------------
+
+G_FIELDS = ('_sections', '_props', '_parent', '_name', '_id', '_content_type')
+
+
+def g_query(verifier, vc, K=4, L=3):
+    """Ground the VC over refs 1..K and indices 0..L; returns (query text, list of value terms, labels)."""
+    from .terms import ground, Forall
+    ex = verifier.ex
+    refdom = [intlit(k) for k in range(1, K + 1)]
+    idxdom = [intlit(k) for k in range(0, L + 1)]
+    cache = {}
+    asserts = [ground(c, refdom, idxdom, cache) for c in vc.pc]
+    asserts.append(ground(Not(vc.goal), refdom, idxdom, cache))
+    pre = ex.pre_heap
+    nxt0 = pre.get('next')
+    llen0 = pre.get('llen')
+    scope = [Le(intlit(1), nxt0), Le(nxt0, intlit(K + 1))]
+    fin = vc.state
+    if fin is not None:
+        scope.append(Le(fin.heap.get('next', nxt0), intlit(K + 1)))
+    for r in refdom:
+        scope.append(And(Le(intlit(0), Select(llen0, r)), Le(Select(llen0, r), intlit(L))))
+        if fin is not None and fin.heap.get('llen') is not None:
+            scope.append(Le(Select(fin.heap['llen'], r), intlit(L)))
+        idv = Select(pre['f:_id'], r)
+        scope.append(Implies(And(Is('VStr', idv), App('canon_uuid', BOOL, Acc('sv', idv))),
+                             Eq(tm.StrLen(Acc('sv', idv)), intlit(36))))
+    values, labels = [], []
+    for name, t in verifier.params.items():
+        values.append(t)
+        labels.append(('param', name))
+    values.append(nxt0)
+    labels.append(('next',))
+    for r in range(1, K + 1):
+        rt = intlit(r)
+        values.append(cls_of(rt))
+        labels.append(('cls', r))
+        for f in G_FIELDS:
+            values.append(Select(pre['f:' + f], rt))
+            labels.append(('field', r, f))
+        values.append(Select(llen0, rt))
+        labels.append(('llen', r))
+        for i in range(L):
+            values.append(Select(Select(pre['litem'], rt), intlit(i)))
+            labels.append(('item', r, i))
+    body_terms = asserts + scope
+    decl = vcmod.declarations(body_terms + values)
+    body = [decl] + ['(assert %s)' % tm.to_smt(a) for a in body_terms] + ['(check-sat)']
+    body.append('(get-value (%s))' % ' '.join(tm.to_smt(v) for v in values))
+    body = '\n'.join(body) + '\n'
+    from . import prelude
+    extra = '\n'.join(l for l in verifier.extra_prelude.split('\n') if 'forall' not in l)
+    from .engine import EXTRA_DECLS
+    q = prelude.HEADER_Z3 + prelude.minimal_prelude(body, EXTRA_DECLS + extra) + body
+    return q, labels
+
+
+def g_search(verifier, ob, K=4, L=3, timeout_s=30):
+    """Try to refute an undischarged obligation in finite scope.  -> dict or None"""
+    from . import solve
+    for vc in ob.vcs:
+        if vc.result is not None and vc.result[0] == 'unsat':
+            continue
+        q, labels = g_query(verifier, vc, K, L)
+        r = solve.check(q, timeout_s, ('z3new', 'cvc5'), tag='G')
+        if r.status == 'sat':
+            model = decode_g_model(r.output, labels, verifier.ex)
+            return {'status': 'sat', 'model': model, 'solver': r.solver, 'ms': r.ms, 'note': vc.note,
+                    'trace': vc.trace[-8:], 'solver_output': r.output[:6000], 'K': K, 'L': L}
+    return None
+
+
+def decode_g_model(output, labels, ex):
+    body = output.split('\n', 1)[1] if '\n' in output else ''
+    try:
+        sx = vcmod.parse_sexprs(body)[0]
+    except Exception:
+        return None
+    vals = [vcmod.decode_val(pair[1]) for pair in sx]
+    id2cls = {v: k for k, v in ex.class_ids.items()}
+    model = {'params': {}, 'objects': {}, 'next': None}
+    for lab, v in zip(labels, vals):
+        if lab[0] == 'param':
+            model['params'][lab[1]] = _enc(v, id2cls)
+        elif lab[0] == 'next':
+            model['next'] = v
+        elif lab[0] == 'cls':
+            model['objects'].setdefault(lab[1], {})['cls'] = id2cls.get(v, 'other:%s' % v)
+        elif lab[0] == 'field':
+            model['objects'].setdefault(lab[1], {}).setdefault('fields', {})[lab[2]] = _enc(v, id2cls)
+        elif lab[0] == 'llen':
+            model['objects'].setdefault(lab[1], {})['llen'] = v
+        elif lab[0] == 'item':
+            model['objects'].setdefault(lab[1], {}).setdefault('items', {})[lab[2]] = _enc(v, id2cls)
+    return model
+
+
+def _enc(v, id2cls):
+    if isinstance(v, vcmod.Opaque):
+        if v.kind == 'ref':
+            return {'ref': v.ident}
+        if v.kind == 'cls':
+            return {'cls': id2cls.get(v.ident, str(v.ident))}
+        return {'opaque': v.kind, 'id': repr(v.ident)}
+    if isinstance(v, tuple):
+        return {'tuple': [_enc(x, id2cls) for x in v]}
+    if isinstance(v, list):
+        return {'list': [_enc(x, id2cls) for x in v]}
+    if isinstance(v, bool):
+        return {'bool': v}
+    if isinstance(v, int):
+        return {'int': v}
+    if isinstance(v, str):
+        return {'str': v}
+    return None
